@@ -87,7 +87,7 @@ Definition op_ok (n : nat) (op : list Z) : Prop :=
   | [1; c; d] => 0 <= c < LIM /\ (nat_of d + nat_of c <= n)%nat
   | [2; c; d] => 0 <= c < LIM /\ (nat_of d < n)%nat
   | [_; _; d] => (nat_of d < n)%nat
-  | [10; _; c; _] => 0 < c < LIM     (* weak_many::<0> (increment_weak(0)) is not covered by the weak-side accounting *)
+  | [10; _; c; d] => 0 < c < LIM /\ (nat_of d + nat_of c <= n)%nat   (* weak_many::<0> is not covered by the weak-side accounting *)
   | [32; _; _; _; _; d] => (nat_of d < n)%nat
   | [33; _; _; _; _; _; d] => (nat_of d < n)%nat
   | _ => True
@@ -135,9 +135,24 @@ Fixpoint bounded_run (s : state) (sched : list (nat * list Z)) : Prop :=
 (* Snapshot::counted ignores the result of increment_strong: on a destructed object it would hand out an
    Rc that owns nothing.  That can only happen if the Snapshot was not valid (property C02); the count
    theorems assume it does not happen along the run. *)
-Definition counted_ok (s : state) : Prop :=
+Definition scounted_ok (s : state) : Prop :=
   forall t x o c k ob, gett s t = Some x -> (frames x = FIncS100 o c :: k \/ frames x = FIncS101 o c :: k) ->
     cign c = true -> geto s o = Some ob -> destructed (word ob) = false.
+(* the weak analogue (FINDING F5 of NOTES_RcP.md): increment_weak from zero is two fetch_adds (sites 105, 106); if the
+   pending try_dealloc ran its decrement between them it would spawn a second try_dealloc that later eats the new
+   owner's unit.  An increment from zero only happens through a WeakSnapshot inside a critical section, and the
+   pending try_dealloc was deferred after that section began, so EBR keeps them apart (property C02/C13); the count
+   theorems assume it: while a thread sits between sites 105 and 106 on [o], no try_dealloc of [o] decrements. *)
+Definition wcounted_ok (s : state) : Prop :=
+  forall t x o tmp k t' x', gett s t = Some x -> frames x = FDecW107 o tmp false :: k ->
+    gett s t' = Some x' -> ~ In (FIncW106 o) (frames x').
+(* increment_weak never runs on a freed block (for C03: otherwise WeakSnapshot::counted on an invalid WeakSnapshot
+   would create a weak owner of a freed object; valid snapshots exclude it, property C02) *)
+Definition incw_obj (f : frame) : option nat :=
+  match f with FIncW103 o _ | FIncW104 o _ _ | FIncW105 o _ | FIncW106 o => Some o | _ => None end.
+Definition wlive_ok (s : state) : Prop :=
+  forall t x f k o ob, gett s t = Some x -> frames x = f :: k -> incw_obj f = Some o -> geto s o = Some ob -> freed ob = false.
+Definition counted_ok (s : state) : Prop := scounted_ok s /\ wcounted_ok s /\ wlive_ok s.
 Fixpoint live_counted (s : state) (sched : list (nat * list Z)) : Prop :=
   counted_ok s /\
   match sched with
@@ -215,3 +230,20 @@ Definition C10_statement : Prop :=
   let s := mrun s0 sched in
   forall o ob, geto s o = Some ob -> destructed (word ob) = false ->
     strong (word ob) = owners s o + b2z (tok ob) /\ (owners s o = 0 -> tok ob = false -> attempts s o = 1).
+
+(* C03: a block is not freed while a weak owner exists: an HWeak variable, or a weak share in flight inside an
+   operation (the credits of [frame_weak]).  Proved in RcWeakP.v from the weak-side invariant. *)
+Definition C03_statement : Prop :=
+  forall s0 sched, fresh_start s0 -> bounded_run s0 sched -> live_counted s0 sched ->
+  let s := mrun s0 sched in
+  forall o ob, geto s o = Some ob -> 0 < wowners s o -> freed ob = false.
+
+(* the other half of C03: a WeakSnapshot taken in the current critical section keeps the block alive.  This does NOT
+   follow from the count invariants: it needs the EBR argument (try_dealloc is deferred, and a deferred function does not
+   start while a critical section that was active at the deferral is still active: C13 of Ebr.v, through the [pwit]
+   witnesses recorded by [defer]).  Stated here, not proved in RcWeakP.v. *)
+Definition C03_wsnap_statement : Prop :=
+  forall s0 sched, fresh_start s0 -> bounded_run s0 sched -> live_counted s0 sched ->
+  let s := mrun s0 sched in
+  forall t x l n o ob, gett s t = Some x -> In (HWSnap l n) (vars x) -> incs x = true -> n = serial x ->
+    fst l = o -> geto s o = Some ob -> freed ob = false.
